@@ -10,7 +10,6 @@ package sys
 //
 //verif:bounds 2 clients x 2 requests (add then get/search); preemption bound 2; both states.
 
-
 import "sync"
 
 // VH_C11_pair: clients A and B on locations locA / locB.
